@@ -300,6 +300,19 @@ class Metadata(object):
         self.token_map = TokenMap(
             token_class, token_to_host_owner, all_tokens, self)
 
+    def token_ownership_differs(self, token_map):
+        """
+        True if the given ``{host: token strings}`` mapping is not the one the
+        current token map was built from.
+        For internal use only.
+        """
+        current = self.token_map
+        if current is None:
+            return True
+        owners = dict((current.token_class.from_string(token_string), host)
+                      for host, token_strings in token_map.items() for token_string in token_strings)
+        return owners != current.token_to_host_owner
+
     def get_replicas(self, keyspace, key):
         """
         Returns a list of :class:`.Host` instances that are replicas for a given
